@@ -2300,6 +2300,9 @@ Box<ITV>::remove_higher_space_dimensions(const dimension_type new_dimension) {
     return;
   }
 
+  // The emptiness of the box has to be detected (and cached) before
+  // the intervals that may be the only witnesses of it are dropped.
+  (void) is_empty();
   seq.resize(new_dimension);
   PPL_ASSERT(OK());
 }
